@@ -218,10 +218,13 @@ def gen_scenarios(ctx):
     return scs
 
 
+_HELD_OPEN = []
 SPAWN_KINDS = ["missing", "missing-cancel-scope-in-path", "not-executable", "directory", "garbage-executable", "empty-command",
                # a missing file whose NAME suggests an interpreter (a launcher that wraps such commands must still fail to enter)
                "missing-script.py", "missing-script.pyw", "missing-script-in-missing-dir.py", "missing-script.sh", "missing-script.js",
-               "not-executable-script.py"]
+               "not-executable-script.py",
+               # an executable that is being written at this moment (an installer has it open): execve fails with ETXTBSY
+               "text-file-busy"]
 
 
 def gen_spawn(tmpdir, start):
@@ -248,6 +251,12 @@ def gen_spawn(tmpdir, start):
         f.write("import sys\nsys.exit(0)\n")
     os.chmod(nxpy, 0o600)
     cmds["not-executable-script.py"] = nxpy
+    busy = os.path.join(tmpdir, "server-being-installed.sh")
+    with open(busy, "w") as f:
+        f.write("#!/bin/sh\nexec cat\n")
+    os.chmod(busy, 0o700)
+    _HELD_OPEN.append(open(busy, "a"))          # held open for writing by THIS process while the workers try to start it
+    cmds["text-file-busy"] = busy
     i = start
     for kind in SPAWN_KINDS:
         for entry in ENTRIES:
